@@ -18,6 +18,19 @@ Fractions, bools and numpy scalars.  "fan" queries apply several mappings to the
 each mapping to the previous mapped result); every mapping call is followed by a check that the object it
 was called on is unchanged.  A directed corpus (every dtype x both valid result types x all four mappings)
 runs first.
+Two further dimensions of every query sequence:
+  * CALL FORMS of the mapping methods: `invert` handed over by keyword, positionally or not at all (default), as a bool, an
+    int (1 / 0) or a numpy bool, for both classes (entries of a chain / fan are [kind, invert, form]);
+  * USES: every public method that is not a mapping (display_as_dataframe with default / user thresholds given positionally or
+    by keyword and both conv_to_probability settings, print_outputs, plot (Agg), str / repr, iteration, the accessors,
+    dictionary access) as an intermediate step ("use" queries and "use" entries inside chains).  After every step every live
+    object of the case (the constructed result and every mapped result made so far) must be bit-identical to what it was
+    (array incl. dtype, nested values, lists) - in particular for values below the display thresholds (parts of size
+    2^-40 .. 2^-60, negative ones, exact zeros, values below 0.05); objects the methods return (dataframes, mapped results,
+    their arrays / lists / rows) are written to in place and the result is re-checked.
+  * HAND-OUT probes on a twin object: what the accessors hand out directly (r.array, r.inputs / r.outputs, r[in] rows,
+    s.outputs, the lists the caller passed in) is written to and coherence re-checked - an OBSERVATION only (ctx.notes,
+    `handout-aliasing:observed`), the property does not promise it (see ASSUMPTIONS); derived objects are a normal oracle.
 Values are dyadic rationals, so the floats the implementation sees are exact and so are its sums.
 The iteration order of the Python set in `_recombine_mapped_result` is observed on the
 implementation and handed to the model as its column order (it must enumerate the model's image
@@ -26,6 +39,8 @@ set exactly once each); everything else is compared in order.
 
 from __future__ import annotations
 
+import contextlib
+import io
 import json
 import warnings
 from fractions import Fraction
@@ -60,7 +75,18 @@ ASSUMPTIONS = [
     "are checked on a mapping, not the mapped values (oracle-only, the model is not asked)",
     "integer dtypes hold values whose sums stay inside the dtype (no int8/uint8 wrap-around is provoked)",
     "nested-list input has >= 1 row (an empty list is a 1-d array for numpy; not generated)",
+    "the client does not write into r.array, r.inputs / r.outputs, r[in] rows, s.outputs or the lists it passed to the "
+    "constructor (the accessors hand out the internal objects, numpy style; the check probes this on a twin object and records "
+    "what it sees as an observation, not as a violation); objects that the methods RETURN (dataframes, figures, mapped results "
+    "and their arrays / rows / output lists) may be written to freely and must not reach the result",
+    "display methods (display_as_dataframe, print_outputs, plot) may refuse a content (counted, not judged); what they show is "
+    "not part of this property - only that the result they were called on is bit-identical afterwards",
+    "bool-like `invert` values are bool, int 1 / 0 and numpy.bool_",
 ]
+
+# the direct hand-outs (see ASSUMPTIONS): False = observation only (coordinator's decision: the property does not promise that
+# a result is immune to a client writing into the objects its accessors hand out)
+ALIASING_IS_VIOLATION = False
 
 # ------------------------------------------------------------------------------------- helpers
 
@@ -162,9 +188,53 @@ def gen_item(rng, ins: list, outs: list, modes: int) -> dict:
 SIZE = {"big": False}  # thorough tier: larger results, longer chains
 
 
-def gen_chain(rng) -> list:
-    return [[rng.choice(["threshold", "parity"]), rng.random() < 0.5]
-            for _ in range(rng.choice([1, 1, 1, 2, 2, 3] + ([4] if SIZE["big"] else [])))]
+# how `invert` is handed to a mapping method: by keyword / positionally / not at all, as bool, int or numpy bool
+FORMS = ["kw", "pos", "default", "kw:int", "pos:int", "kw:np", "pos:np"]
+
+
+def gen_form(rng, inv: bool) -> str:
+    f = rng.choice(["kw"] * 4 + ["pos"] * 4 + ["default"] * 2 + ["kw:int", "pos:int", "kw:np", "pos:np"])
+    return "pos" if f == "default" and inv else f
+
+
+def entry(e: list) -> tuple:
+    """[kind, invert] (older replays) or [kind, invert, form]"""
+    return e[0], bool(e[1]), (e[2] if len(e) > 2 else "kw")
+
+
+def maps_of(chain: list) -> list:
+    """the mappings of a chain as the model sees them (call forms and uses are the implementation's business)"""
+    return [[e[0], bool(e[1])] for e in chain if e[0] != "use"]
+
+
+THRESHOLDS = [None, None, None, 0.05, 0.05, 0.5, 1e-3, 0, 1.0, 1e-12, 1e-20, 2.0]
+
+
+def gen_use(rng, kind: str) -> dict:
+    """a public method that is not a mapping, with its call form"""
+    m = rng.choice(["df"] * 8 + ["print"] * 2 + ["text", "iter", "acc", "item"] + (["plot"] if rng.random() < 0.12 else []))
+    if m == "df":
+        u = {"m": "df", "thr": rng.choice(THRESHOLDS), "form": rng.choice(["pos", "kw"]), "mut": rng.random() < 0.4}
+        if kind == "sim":
+            u["conv"] = rng.choice([None, None, False, True])
+        return u
+    if m == "print":
+        return {"m": "print", "rounding": rng.choice([None, None, 0, 2, 12])} if kind == "sim" else {"m": "print"}
+    if m == "plot":
+        u = {"m": "plot", "labels": rng.random() < 0.4}
+        if kind == "sim":
+            u["conv"] = rng.random() < 0.5
+        return u
+    return {"m": m}
+
+
+def gen_chain(rng, kind: str = "sim") -> list:
+    ch = [[rng.choice(["threshold", "parity"]), rng.random() < 0.5]
+          for _ in range(rng.choice([1, 1, 1, 2, 2, 3] + ([4] if SIZE["big"] else [])))]
+    ch = [[k, i, gen_form(rng, i)] for k, i in ch]
+    if rng.random() < 0.3:  # a use of the intermediate (or of the source) between two mappings
+        ch.insert(rng.randint(0, len(ch)), ["use", gen_use(rng, kind)])
+    return ch
 
 
 def gen_fan(rng) -> list:
@@ -179,7 +249,7 @@ def gen_fan(rng) -> list:
         fan = [[k, rng.random() < 0.5] for _ in range(rng.randint(2, 4))]
     else:
         fan = [list(rng.choice(combos)) for _ in range(rng.randint(2, 5))]
-    return fan
+    return [[k, i, gen_form(rng, i)] for k, i in fan]
 
 
 # how the values are handed to the constructor: ndarray dtypes and nested Python lists
@@ -190,8 +260,33 @@ LIST_DT = ["list:float", "list:int", "list:complex", "list:bool", "list:mixed"]
 DTYPES = CPLX_DT + FLOAT_DT + INT_DT + ["bool", "object"] + LIST_DT
 
 
-def gen_value_for(rng, dt: str, imag: bool) -> list:
+# storage forms with 53 significant bits: these can hold parts far below the display thresholds next to ordinary ones
+TINY_DT = {"auto", "complex128", "float64", "object", "list:float", "list:complex"}
+TINY = [Fraction(1, 2 ** k) for k in (40, 44, 50, 60)]
+
+
+def gen_small_value(rng, imag: bool) -> list:
+    """values around the display thresholds: parts of size 2^-40..2^-60 (either sign) alone or on top of an ordinary dyadic
+    value, exact zeros, values below 0.05"""
+    def part():
+        t = rng.choice(TINY) * rng.choice([1, 1, -1])
+        r = rng.random()
+        if r < 0.35:
+            return t
+        if r < 0.5:
+            return Fraction(0)
+        if r < 0.7:
+            return Fraction(rng.choice([1, 2, 3]) * rng.choice([1, 1, -1]), 64)  # 0 < |x| < 0.05
+        if r < 0.9:
+            return Fraction(rng.choice([8, 16, 32, 48, 64]) * rng.choice([1, 1, -1]), 64) + rng.choice(TINY[:3]) * rng.choice([1, -1])
+        return Fraction(rng.randint(-64, 64), 64)
+    return [frac_str(part()), frac_str(part()) if imag else "0"]
+
+
+def gen_value_for(rng, dt: str, imag: bool, small: bool = False) -> list:
     """a value the dtype represents exactly (and whose sums over a row stay representable)"""
+    if small and rng.random() < 0.6:
+        return gen_small_value(rng, imag)
     if dt == "bool" or dt == "list:bool":
         return [str(rng.choice([0, 1, 1])), "0"]
     if dt in INT_DT or dt == "list:int":
@@ -229,17 +324,39 @@ def gen_sim_case(ctx: Ctx, rng) -> dict:
         imag = amp and rng.random() < 0.5  # Python complex objects only in amplitude results
     else:
         imag = False
-    arr = [[gen_value_for(rng, dt, imag) for _ in range(shape[1])] for _ in range(shape[0])]
+    small = dt in TINY_DT and rng.random() < 0.4
+    arr = [[gen_value_for(rng, dt, imag, small) for _ in range(shape[1])] for _ in range(shape[0])]
     qs = []
     for _ in range(rng.randint(2, 6)):
         x = rng.random()
-        if x < 0.5:
+        if x < 0.4:
             qs.append(["get", gen_item(rng, ins, outs, modes)])
-        elif x < 0.85:
-            qs.append(["map", gen_chain(rng)])
+        elif x < 0.6:
+            qs.append(["use", gen_use(rng, "sim")])
+        elif x < 0.87:
+            qs.append(["map", gen_chain(rng, "sim")])
         else:
             qs.append(["fan", gen_fan(rng)])
-    return {"kind": "sim", "rtype": rt, "dtype": dt, "shape": shape, "array": arr, "inputs": ins, "outputs": outs, "q": qs}
+    if small and not any(q[0] == "use" for q in qs[:-1]):
+        # values below the thresholds are there to be looked at AFTER a display call
+        qs.insert(rng.randrange(len(qs)), ["use", {**gen_use(rng, "sim"), "m": "df", "mut": False}])
+    case = {"kind": "sim", "rtype": rt, "dtype": dt, "shape": shape, "array": arr, "inputs": ins, "outputs": outs, "q": qs}
+    if rng.random() < 0.5:
+        case["handout"] = gen_handout(rng, "sim")
+    return case
+
+
+HANDOUT_SIM = ["array", "inputs", "outputs", "row", "ctor-inputs", "ctor-outputs", "ctor-array", "mapped-inputs",
+               "mapped-array", "mapped-outputs", "mapped-row"]
+HANDOUT_SAMP = ["outputs", "ctor-dict", "mapped-outputs", "mapped-dict", "views"]
+# the accessors hand these out directly / the constructor keeps them (see ASSUMPTIONS): observation only
+DIRECT = {"array", "inputs", "outputs", "row", "ctor-inputs", "ctor-outputs", "mapped-inputs"}
+
+
+def gen_handout(rng, kind: str) -> dict:
+    return {"what": rng.choice(HANDOUT_SIM if kind == "sim" else HANDOUT_SAMP),
+            "how": rng.choice(["assign", "assign", "append", "reverse", "pop", "clear"]),
+            "i": rng.randrange(8), "j": rng.randrange(8), "map": [rng.choice(["threshold", "parity"]), rng.random() < 0.5]}
 
 
 CTYPES = ["int", "int", "float", "fraction", "bool", "np.int64", "np.int32", "np.uint16", "np.float64", "np.float32", "mixed"]
@@ -263,13 +380,18 @@ def gen_samp_case(ctx: Ctx, rng) -> dict:
     qs = []
     for _ in range(rng.randint(2, 5)):
         r = rng.random()
-        if r < 0.45:
+        if r < 0.35:
             qs.append(["get", rng.choice(outs) if outs and rng.random() < 0.75 else (None if rng.random() < 0.3 else [7] * modes)])
-        elif r < 0.8:
-            qs.append(["map", gen_chain(rng)])
+        elif r < 0.5:
+            qs.append(["use", gen_use(rng, "samp")])
+        elif r < 0.82:
+            qs.append(["map", gen_chain(rng, "samp")])
         else:
             qs.append(["fan", gen_fan(rng)])
-    return {"kind": "samp", "ctype": ct, "results": results, "input": inp, "q": qs}
+    case = {"kind": "samp", "ctype": ct, "results": results, "input": inp, "q": qs}
+    if rng.random() < 0.4:
+        case["handout"] = gen_handout(rng, "samp")
+    return case
 
 
 def corpus() -> list:
@@ -315,6 +437,67 @@ def corpus() -> list:
                     "results": [[s, [v, "0"]] for s, v in zip([[2, 0, 0], [1, 1, 0], [0, 3, 1], [0, 1, 0]], vals)],
                     "q": [["fan", every + every[::-1]], ["map", [["threshold", True], ["threshold", True], ["parity", False]]],
                           ["get", [1, 1, 0]]]})
+    # every call form of every mapping, on the same object and in chains, for both classes
+    forms = [[k, i, f] for k in ("threshold", "parity") for i in (False, True) for f in FORMS if not (f == "default" and i)]
+    chains = [["map", [[k, i, f], [k, i, f]]] for k, i, f in forms if f in ("pos", "pos:int", "pos:np", "default")]
+    out.append({"kind": "sim", "rtype": "probability", "dtype": "float64", "shape": [2, 3],
+                "array": [[["1/4", "0"], ["1/2", "0"], ["1/4", "0"]], [["1/8", "0"], ["0", "0"], ["7/8", "0"]]],
+                "inputs": ins, "outputs": [[2, 0], [1, 1], [0, 3]], "q": [["fan", forms]] + chains})
+    out.append({"kind": "sim", "rtype": "probability_amplitude", "dtype": "complex128", "shape": [1, 2],
+                "array": [[["1/2", "1/2"], ["-1/2", "0"]]], "inputs": [[1, 0]], "outputs": outs2, "q": [["fan", forms]]})
+    out.append({"kind": "samp", "ctype": "int", "input": [1, 1, 0],
+                "results": [[s, [v, "0"]] for s, v in zip([[2, 0, 0], [1, 1, 0], [0, 3, 1], [0, 0, 0], [1, 2, 1]], ["30", "60", "7", "2", "1"])],
+                "q": [["fan", forms]] + chains})
+    # display calls as intermediate steps on results holding values around the display thresholds; every observable is
+    # read again afterwards (get, fan, chain) and the frame oracle compares the object with what it was
+    t50, t44 = "1/1125899906842624", "1/17592186044416"
+    small_p = [[["15/16", "0"], ["1/32", "0"], [t50, "0"], ["-" + t44, "0"]], [["1/64", "0"], ["1/2", "0"], ["0", "0"], ["31/64", "0"]]]
+    small_a = [[["1/2", t50], [t44, "-1/2"], ["1/32", "1/64"], ["0", "3/4"]], [["-" + t50, "-" + t50], ["3/4", "1/64"], ["0", "0"], ["1/4", "0"]]]
+    outs4 = [[2, 0, 0], [1, 1, 0], [0, 1, 1], [1, 0, 1]]
+    ins2 = [[1, 1, 0], [0, 1, 1]]
+    looks = [["get", {"tup": [{"st": [1, 1, 0]}, {"st": [0, 1, 1]}]}], ["get", {"st": [0, 1, 1]}], ["fan", [["threshold", False, "kw"], ["parity", True, "pos"]]]]
+    dfs = [{"m": "df", "thr": t, "form": f, "conv": c, "mut": mu}
+           for t, f, c, mu in [(None, "kw", None, False), (0.05, "pos", None, True), (0.05, "kw", False, False), (None, "kw", True, True),
+                               (0.5, "pos", True, False), (1e-20, "kw", None, False), (0, "pos", False, True), (2.0, "kw", None, False)]]
+    others = [{"m": "print", "rounding": None}, {"m": "print", "rounding": 0}, {"m": "plot", "conv": False, "labels": False},
+              {"m": "plot", "conv": True, "labels": True}, {"m": "text"}, {"m": "iter"}, {"m": "acc"}, {"m": "item"}]
+    for rt, vals, dts in (("probability", small_p, ("float64", "auto", "object", "list:float", "complex128")),
+                          ("probability_amplitude", small_a, ("complex128", "auto", "list:complex", "object"))):
+        for dt in dts:
+            for u in dfs + others:
+                if u["m"] == "plot" and dt != dts[0]:
+                    continue
+                q = [["use", u]] + looks + [["map", [["threshold", False, "default"], ["use", u], ["parity", False, "pos"]]], ["use", u]] + looks[:2]
+                out.append({"kind": "sim", "rtype": rt, "dtype": dt, "shape": [2, 4], "array": vals, "inputs": ins2, "outputs": outs4, "q": q})
+    # one input (bar chart instead of heat map), real amplitudes, integer and low-precision storage under a user threshold
+    for rt, dt in (("probability", "float32"), ("probability", "int64"), ("probability_amplitude", "float64"), ("probability", "float16")):
+        vals = [[["1", "0"], ["0", "0"], ["1", "0"], ["2", "0"]]] if dt == "int64" else [[["1/32", "0"], ["-1/64", "0"], ["1/2", "0"], ["0", "0"]]]
+        for u in (dfs[1], dfs[4], dfs[7], {"m": "df", "thr": 1.0, "form": "kw", "conv": None, "mut": True}, others[2]):
+            out.append({"kind": "sim", "rtype": rt, "dtype": dt, "shape": [1, 4], "array": vals, "inputs": [[1, 1, 0]], "outputs": outs4,
+                        "q": [["use", u]] + looks[:1] + [["fan", [["parity", False, "pos"]]], ["use", u]]})
+    for ct in ("int", "float", "np.int64", "np.float64", "fraction"):
+        for u in ({"m": "df", "thr": None, "form": "kw", "mut": True}, {"m": "df", "thr": 5, "form": "pos", "mut": False},
+                  {"m": "df", "thr": 0.05, "form": "kw", "mut": True}, {"m": "print"}, {"m": "plot", "labels": True}, {"m": "text"},
+                  {"m": "iter"}, {"m": "acc"}, {"m": "item"}):
+            if u["m"] == "plot" and ct != "int":
+                continue
+            vals = ["3", "0", "1", "40"] if ct in ("int", "np.int64") else ["1/32", "0", "1/2", "15/32"]
+            out.append({"kind": "samp", "ctype": ct, "input": [1, 1, 0],
+                        "results": [[s, [v, "0"]] for s, v in zip([[2, 0, 0], [1, 1, 0], [0, 3, 1], [0, 1, 0]], vals)],
+                        "q": [["use", u], ["get", [1, 1, 0]], ["fan", [["threshold", True, "pos"], ["parity", False, "default"]]],
+                              ["map", [["threshold", False, "kw"], ["use", u], ["parity", True, "pos"]]], ["use", u], ["get", [0, 3, 1]]]})
+    # hand-out probes: every kind x every way of writing
+    for what in HANDOUT_SIM:
+        for how in ("assign", "append", "reverse", "pop", "clear"):
+            out.append({"kind": "sim", "rtype": "probability", "dtype": "float64", "shape": [2, 3],
+                        "array": [[["1/4", "0"], ["1/2", "0"], ["1/4", "0"]], [["1/8", "0"], ["0", "0"], ["7/8", "0"]]],
+                        "inputs": ins, "outputs": [[2, 0], [1, 1], [0, 3]], "q": [],
+                        "handout": {"what": what, "how": how, "i": 1, "j": 2, "map": ["threshold", False]}})
+    for what in HANDOUT_SAMP:
+        for how in ("assign", "append", "reverse", "pop", "clear"):
+            out.append({"kind": "samp", "ctype": "int", "input": [1, 1, 0], "q": [],
+                        "results": [[s, [v, "0"]] for s, v in zip([[2, 0, 0], [1, 1, 0], [0, 3, 1]], ["3", "5", "1"])],
+                        "handout": {"what": what, "how": how, "i": 1, "j": 0, "map": ["parity", True]}})
     return out
 
 
@@ -370,8 +553,17 @@ def cmp_sim(res, m: dict, where: str) -> list[str]:
     return probs
 
 
-def coherence(res, where: str) -> list[str]:
-    """clause 1 of the property, evaluated on the implementation"""
+def use_name(u: dict) -> str:
+    if u["m"] == "df":
+        args = [f"{k}={u[k]}" for k in ("thr", "conv") if u.get(k) is not None]
+        return f"display_as_dataframe({', '.join(args)})" + (f" [{u.get('form')}]" if args else "")
+    return {"print": "print_outputs", "plot": "plot", "text": "str / repr", "iter": "iteration", "acc": "the accessors",
+            "item": "dictionary access"}[u["m"]]
+
+
+def coherence(res, where: str, exact: bool = False) -> list[str]:
+    """clause 1 of the property, evaluated on the implementation (exact: the three ways of reading a value return the very
+    same number, which is what a result holds from its construction on)"""
     probs = []
     ins, outs = res.inputs, res.outputs
     arr = np.asarray(res.array)
@@ -399,7 +591,8 @@ def coherence(res, where: str) -> list[str]:
                 continue
             a = ires(lambda: res[s, o])
             b = ires(lambda: res[s][o])
-            if a[0] != "ok" or b[0] != "ok" or not close(a[1], b[1]) or not close(a[1], arr[i, j]):
+            if a[0] != "ok" or b[0] != "ok" or not close(a[1], b[1]) or not close(a[1], arr[i, j]) or \
+                    (exact and not (a[1] == b[1] and a[1] == arr[i, j])):
                 probs.append(f"oracle: {where}: result[{s},{o}]={a}, result[{s}][{o}]={b}, array[{i},{j}]={arr[i, j]} differ")
                 return probs
     return probs
@@ -490,10 +683,215 @@ def snap_sim(res):
             [s.s for s in res.inputs], [s.s for s in res.outputs], res.result_type)
 
 
-def apply_map(obj, kind: str, inv: bool):
+def inv_value(inv: bool, form: str):
+    t = form.split(":")[1] if ":" in form else "bool"
+    return int(inv) if t == "int" else np.bool_(inv) if t == "np" else bool(inv)
+
+
+def call_mapping(obj, kind: str, inv: bool, form: str = "kw"):
+    """the documented signatures are apply_threshold_mapping(invert=False) / apply_parity_mapping(invert=False):
+    invert may be given by keyword, positionally or left out"""
+    fn = obj.apply_threshold_mapping if kind == "threshold" else obj.apply_parity_mapping
+    how = form.split(":")[0]
+    if how == "default" and not inv:
+        return fn()
+    if how == "pos":
+        return fn(inv_value(inv, form))
+    return fn(invert=inv_value(inv, form))
+
+
+def apply_map(obj, kind: str, inv: bool, form: str = "kw"):
     with warnings.catch_warnings():
         warnings.simplefilter("ignore")
-        return ires(lambda: obj.apply_threshold_mapping(invert=inv) if kind == "threshold" else obj.apply_parity_mapping(invert=inv))
+        return ires(lambda: call_mapping(obj, kind, inv, form))
+
+
+def df_call(obj, u: dict):
+    thr, conv = u.get("thr"), u.get("conv")
+    if u.get("form") == "pos" and thr is not None:
+        return obj.display_as_dataframe(thr) if conv is None else obj.display_as_dataframe(thr, conv)
+    kw = {}
+    if thr is not None:
+        kw["threshold"] = thr
+    if conv is not None:
+        kw["conv_to_probability"] = conv
+    return obj.display_as_dataframe(**kw)
+
+
+def scribble(df) -> None:
+    """write into a returned dataframe in place: through the frame and through the array it hands out"""
+    for f in (lambda: df.iloc.__setitem__((slice(None), slice(None)), 7), lambda: df.to_numpy().__setitem__(..., 5),
+              lambda: df.values.__setitem__(..., 3), lambda: np.asarray(df).__setitem__(..., 2)):
+        try:
+            f()
+        except Exception:  # noqa: BLE001  (read-only views, empty frames)
+            pass
+
+
+def do_use(ctx: Ctx, obj, u: dict, kind: str) -> tuple:
+    """a public method that is not a mapping, called as an intermediate step -> outcome.  What the display methods show (and
+    whether they accept the content at all) is not judged here; the caller checks that nothing observable has changed."""
+    m = u["m"]
+    labels = {o: "x" for o in list(obj.outputs)[:2]} if u.get("labels") else None
+    with warnings.catch_warnings(), contextlib.redirect_stdout(io.StringIO()):
+        warnings.simplefilter("ignore")
+        if m == "df":
+            ret = ires(lambda: df_call(obj, u))
+            if ret[0] == "ok" and u.get("mut"):
+                scribble(ret[1])
+                ctx.count(f"{kind}:use:df:returned-frame-written-to")
+        elif m == "print":
+            ret = ires(lambda: obj.print_outputs() if u.get("rounding") is None else obj.print_outputs(u["rounding"]))
+        elif m == "plot":
+            import matplotlib.pyplot as plt
+
+            if kind == "sim":
+                ret = ires(lambda: obj.plot(conv_to_probability=bool(u.get("conv")), show=False, state_labels=labels))
+            else:
+                ret = ires(lambda: obj.plot(show=False, state_labels=labels))
+            plt.close("all")
+        elif m == "text":
+            ret = ires(lambda: (str(obj), repr(obj), f"{obj}", obj == obj, bool(obj)))
+        elif m == "iter":
+            if kind == "sim":
+                ret = ires(lambda: (list(obj), list(obj.items()), [list(r.items()) for r in obj.values()], len(obj),
+                                    [s in obj for s in obj.inputs], list(reversed(obj))))
+            else:
+                ret = ires(lambda: (list(obj), list(obj.items()), list(obj.values()), len(obj), [s in obj for s in obj.outputs],
+                                    sorted(obj.values(), key=float)))
+        elif m == "acc":
+            if kind == "sim":
+                ret = ires(lambda: (obj.inputs, obj.outputs, obj.array, obj.result_type, obj.array.shape, obj.array.dtype))
+            else:
+                ret = ires(lambda: (obj.input, obj.outputs, len(obj.outputs), obj.input.n_modes))
+        else:
+            ks = list(obj.inputs if kind == "sim" else obj.outputs)
+            ret = ires(lambda: (dict(obj), [obj.get(s) for s in ks], [obj[s] for s in ks[:3]], obj.get(State([9, 9, 9, 9, 9])),
+                                dict(obj).pop(ks[0]) if ks else None, obj.copy(), {**obj}))
+    if m == "df":
+        t = u.get("thr")
+        ctx.count(f"{kind}:use:df:threshold={'default' if t is None else str(t) + ' (' + str(u.get('form')) + ')'}")
+        if kind == "sim":
+            ctx.count(f"sim:use:df:conv_to_probability={u.get('conv')}:{obj.result_type}")
+    ctx.count(f"{kind}:use:{m}:" + ("ok" if ret[0] == "ok" else "refused:" + str(ret[1])))
+    return ret
+
+
+def write_list(lst: list, how: str, i: int, extra) -> bool:
+    """write into a list that was handed out -> whether anything was written"""
+    if how == "append":
+        lst.append(extra)
+    elif how == "reverse":
+        if len(lst) < 2 or lst == lst[::-1]:
+            return False
+        lst.reverse()
+    elif how == "pop":
+        if not lst:
+            return False
+        lst.pop(i % len(lst))
+    elif how == "clear":
+        if not lst:
+            return False
+        lst.clear()
+    else:
+        if not lst or lst[i % len(lst)] == extra:
+            return False
+        lst[i % len(lst)] = extra
+    return True
+
+
+def alias_note(ctx: Ctx, kind: str, what: str, how: str, effect: str) -> list[str]:
+    """a direct hand-out was written to and the object is no longer coherent: an observation (see ASSUMPTIONS)"""
+    ctx.count("handout-aliasing:observed")
+    ctx.count(f"handout-aliasing:observed:{kind}:{what}")
+    if ALIASING_IS_VIOLATION:
+        return [f"oracle: handout-aliasing: {kind}: writing ({how}) into {what} {effect}"]
+    seen = ctx.extra.setdefault("handout_aliasing_observed", {})
+    key = f"{kind}:{what}"
+    if key not in seen:
+        seen[key] = effect
+        ctx.notes.append(f"observation (not counted): {kind} result: writing ({how}) into {what} {effect}; the accessors hand out "
+                         "the internal objects and the constructor keeps the caller's lists (not promised otherwise by the property)")
+    return []
+
+
+def handout_sim(ctx: Ctx, case: dict) -> list[str]:
+    """write into what a twin of the case's result hands out.  Objects that the methods RETURN (a mapped result and its
+    array / lists / rows, the array given to the constructor, which numpy copies) must not reach the result: normal oracle.
+    The accessors' own objects and the caller's lists are DIRECT hand-outs: observation only."""
+    h = case["handout"]
+    what, how, i, j = h["what"], h["how"], h["i"], h["j"]
+    arr, _lossy = build_array(case)
+    ins = [State(list(s)) for s in case["inputs"]]
+    outs = [State(list(s)) for s in case["outputs"]]
+    built = ires(lambda: SimulationResult(arr, case["rtype"], inputs=ins, outputs=outs))
+    if built[0] != "ok":
+        return []
+    t = built[1]
+    m = None
+    if case["rtype"] == "probability":
+        got = apply_map(t, h["map"][0], h["map"][1])
+        m = got[1] if got[0] == "ok" else None
+    if what.startswith("mapped") and m is None:
+        what = what[len("mapped-"):]
+    if what in ("array", "row", "ctor-array", "mapped-array", "mapped-row"):
+        how = "assign" if how not in ("assign", "clear") or "array" in what else how
+    s_t, s_m = snap_sim(t), (snap_sim(m) if m is not None else None)
+    extra = State([7] * 3)
+    target = m if what.startswith("mapped") else t
+    wrote = False
+    try:
+        if what in ("array", "mapped-array", "ctor-array"):
+            a = arr if what == "ctor-array" else target.array
+            if isinstance(a, list):
+                if a and a[0]:
+                    a[i % len(a)][j % len(a[0])] = 77
+                    wrote = True
+            elif a.size:
+                a[i % a.shape[0], j % a.shape[1]] = True if a.dtype == bool else a[i % a.shape[0], j % a.shape[1]] + 1
+                wrote = not (a.dtype == bool and s_t[2][i % a.shape[0]][j % a.shape[1]] is True)
+        elif what in ("row", "mapped-row"):
+            ks = list(target.inputs)
+            if ks and len(target.outputs):
+                row = target[ks[i % len(ks)]]
+                o = list(row)[j % len(row)]
+                if how == "clear":
+                    row.clear()
+                else:
+                    row[o] = row[o] + 1
+                wrote = True
+        else:
+            lst = {"inputs": lambda: t.inputs, "outputs": lambda: t.outputs, "ctor-inputs": lambda: ins, "ctor-outputs": lambda: outs,
+                   "mapped-inputs": lambda: m.inputs, "mapped-outputs": lambda: m.outputs}[what]()
+            wrote = write_list(lst, how, i, extra)
+    except Exception as e:  # noqa: BLE001  (a read-only view / an immutable hand-out refuses the write)
+        ctx.count(f"sim:handout:{what}:write-refused:{type(e).__name__}")
+        return []
+    ctx.count(f"sim:handout:{what}:{how}" + ("" if wrote else ":nothing-to-write"))
+    if not wrote:
+        return []
+    probs: list[str] = []
+    # the object that was NOT written to
+    other, s_o, o_name = (t, s_t, "the result it was mapped from") if target is m else (m, s_m, "a mapped result made earlier")
+    if what.startswith("ctor"):
+        other, s_o, o_name = t, s_t, "the result built from it"
+    bad = []
+    if other is not None and (snap_sim(other) != s_o or coherence(other, "", exact=True)):
+        bad.append(f"changes {o_name}")
+    if what in DIRECT and not what.startswith("ctor") and coherence(target, "", exact=True):
+        bad.append("leaves the object incoherent (array, pair / nested subscripts and lists no longer agree)")
+    if what.startswith("ctor") and m is not None and (snap_sim(m) != s_m or coherence(m, "", exact=True)):
+        bad.append("changes a mapped result made earlier")
+    if not bad:
+        return probs
+    if what in DIRECT:
+        return alias_note(ctx, "simulation", {"array": "r.array", "inputs": "r.inputs", "outputs": "r.outputs", "row": "the row r[input]",
+                                              "ctor-inputs": "the inputs list given to the constructor",
+                                              "ctor-outputs": "the outputs list given to the constructor",
+                                              "mapped-inputs": "mapped.inputs"}[what], how, " and ".join(bad))
+    probs.append(f"oracle: writing ({how}) into {what.replace('ctor-array', 'the array given to the constructor')} of a result "
+                 f"{' and '.join(bad)}")
+    return probs
 
 
 def run_sim(ctx: Ctx, case: dict) -> list[str]:
@@ -525,17 +923,58 @@ def run_sim(ctx: Ctx, case: dict) -> list[str]:
     mq = []
     amp = case["rtype"] == "probability_amplitude"
 
-    def one_mapping(cur, kind, inv, w):
+    live: list = []  # every object of this case with its snapshot: nothing but construction ever changes one
+
+    def frame(w) -> list:
+        out = []
+        for label, o, sn in live:
+            now = snap_sim(o)
+            if now != sn:
+                what = [n for n, a, b in zip(("dtype", "shape", "array", "nested values", "inputs", "outputs", "type"), sn, now) if a != b]
+                out.append(f"oracle: {w}: {label} is no longer what it was ({', '.join(what)} changed)")
+                live[:] = [(l_, o_, snap_sim(o_)) for l_, o_, _ in live]
+                break
+        return out
+
+    def keep(label, o):
+        if len(live) < 10:
+            live.append((label, o, snap_sim(o)))
+
+    def one_mapping(cur, kind, inv, w, form="kw"):
         """apply one mapping to `cur`; clauses that do not need the model -> (outcome, problems)"""
         out = []
         before = snap_sim(cur)
-        nxt = apply_map(cur, kind, inv)
+        ctx.count(f"sim:call-form:{form}")
+        nxt = apply_map(cur, kind, inv, form)
         if snap_sim(cur) != before:
             out.append(f"oracle: {w}: the result the mapping was applied to has changed (array / nested values / lists)")
         if amp != (nxt == ("err", "ValueError")):
             out.append(f"oracle: {w}: {'accepted' if nxt[0] == 'ok' else 'raised ' + nxt[1]} for a {case['rtype']} result "
                        f"stored as {np.asarray(cur.array).dtype} (mappings are refused, with a ValueError, exactly for amplitude results)")
+        out += frame(w)
+        if nxt[0] == "ok":
+            keep(f"the result of an earlier mapping ({kind}, invert={inv})", nxt[1])
         return nxt, out
+
+    def one_use(cur, u, w, is_source: bool):
+        """a non-mapping method as an intermediate step: every observable of every live object stays what it was"""
+        out = []
+        before = snap_sim(cur)
+        ref = apply_map(cur, "threshold", False) if not amp and u["m"] in ("df", "plot") else None
+        do_use(ctx, cur, u, "sim")
+        if snap_sim(cur) != before:
+            now = snap_sim(cur)
+            what = [n for n, a, b in zip(("dtype", "shape", "array", "nested values", "inputs", "outputs", "type"), before, now) if a != b]
+            out.append(f"oracle: {w}: the result it was called on is no longer what it was ({', '.join(what)} changed)")
+        out += frame(w)
+        out += coherence(cur, w + ": the result it was called on", exact=True)
+        if ref is not None and ref[0] == "ok":
+            again = apply_map(cur, "threshold", False)
+            if again[0] != "ok" or sorted(zip([o.s for o in again[1].outputs], np.asarray(again[1].array).T.tolist())) != \
+                    sorted(zip([o.s for o in ref[1].outputs], np.asarray(ref[1].array).T.tolist())):
+                out.append(f"oracle: {w}: the threshold mapping of the result differs from what it was before the call")
+        ctx.count("sim:use:on-" + ("constructed" if is_source else "mapped") + "-result")
+        return out
 
     def check_step(pv, nw, kind, inv, w, values: bool):
         out = []
@@ -553,22 +992,27 @@ def run_sim(ctx: Ctx, case: dict) -> list[str]:
         return out
 
     if res is not None:
-        probs += coherence(res, "constructed result")
+        probs += coherence(res, "constructed result", exact=True)
         snap0 = snap_sim(res)
+        keep("the constructed result", res)
         for q in case["q"]:
-            if q[0] == "get":
+            if q[0] == "use":
+                probs += one_use(res, q[1], f"{use_name(q[1])} as an intermediate step", True)
+            elif q[0] == "get":
                 item = to_item(q[1])
                 got = ires(lambda: res[item])
                 impl_answers.append(got)
                 mq.append(q)
                 ctx.count("sim:get:" + ("state" if "st" in q[1] else f"tuple{len(q[1]['tup'])}" if "tup" in q[1] else "other") + ":" + got[0])
+                probs += frame(f"subscript {q[1]}")
             elif q[0] == "fan":
                 # every mapping on the SAME object; an earlier call must not influence a later one
                 seen: dict = {}
-                for n_, (kind, inv) in enumerate(q[1]):
+                for n_, e in enumerate(q[1]):
+                    kind, inv, form = entry(e)
                     ctx.count(f"sim:fan:{kind}:{'inverted' if inv else 'plain'}")
-                    w = f"mapping #{n_} ({kind}, invert={inv}) on the same object"
-                    nxt, pr = one_mapping(res, kind, inv, w)
+                    w = f"mapping #{n_} ({kind}, invert={inv}, call form {form}) on the same object"
+                    nxt, pr = one_mapping(res, kind, inv, w, form)
                     probs += pr
                     if nxt[0] == "ok":
                         probs += check_step(res, nxt[1], kind, inv, w, not lossy)
@@ -592,10 +1036,14 @@ def run_sim(ctx: Ctx, case: dict) -> list[str]:
                 steps = []
                 outcome = ("ok", None)
                 cur_lossy = lossy
-                for k, (kind, inv) in enumerate(q[1]):
+                for k, e in enumerate(q[1]):
+                    if e[0] == "use":
+                        probs += one_use(cur, e[1], f"{use_name(e[1])} between the mappings of a chain (step #{k})", cur is res)
+                        continue
+                    kind, inv, form = entry(e)
                     ctx.count(f"sim:map:{kind}:{'inverted' if inv else 'plain'}")
-                    w = f"mapping #{k} ({kind}, invert={inv})"
-                    nxt, pr = one_mapping(cur, kind, inv, w)
+                    w = f"mapping #{k} ({kind}, invert={inv}, call form {form})"
+                    nxt, pr = one_mapping(cur, kind, inv, w, form)
                     probs += pr
                     if nxt[0] == "err":
                         outcome = nxt
@@ -621,13 +1069,16 @@ def run_sim(ctx: Ctx, case: dict) -> list[str]:
                                 probs.append(f"oracle: applying the {kind} mapping (invert={inv}) twice does not give the "
                                              f"{'plain mapping' if inv else 'same result as once'} for input {s}")
                                 break
-                if not lossy:
+                if not lossy and maps_of(q[1]):
                     impl_answers.append((outcome[0], cur) if outcome[0] == "ok" else outcome)
-                    mq.append(["map", q[1], orders + [[]] * (len(q[1]) - len(orders))])
+                    mq.append(["map", maps_of(q[1]), orders + [[]] * (len(maps_of(q[1])) - len(orders))])
         if snap_sim(res) != snap0:
             probs.append("oracle: the constructed result changed while it was queried and mapped")
         else:
-            probs += [p.replace("constructed result", "constructed result after all queries") for p in coherence(res, "constructed result")]
+            probs += [p.replace("constructed result", "constructed result after all queries")
+                      for p in coherence(res, "constructed result", exact=True)]
+        if case.get("handout"):
+            probs += handout_sim(ctx, case)
     req = {"op": "res", "kind": "sim", "rtype": case["rtype"], "shape": shape,
            "array": [[val_str(v) for v in row] for row in case["array"]],
            "inputs": case["inputs"], "outputs": case["outputs"], "q": mq}
@@ -691,6 +1142,61 @@ def snap_samp(res):
     return ([(k.s, complex(v), type(v).__name__) for k, v in dict.items(res)], [o.s for o in res.outputs], res.input.s)
 
 
+def handout_samp(ctx: Ctx, case: dict) -> list[str]:
+    """as handout_sim: s.outputs is a direct hand-out (observation); the dictionary given to the constructor, a mapped
+    result and the views / lists made from the result are not (oracle)"""
+    h = case["handout"]
+    what, how, i = h["what"], h["how"], h["i"]
+    ct = case.get("ctype", "int")
+    d = dict((State(list(s)), count_value(ct, Fraction(v[0]), k)) for k, (s, v) in enumerate(case["results"]))
+    if case["input"] is None:
+        return []
+    t = SamplingResult(d, State(list(case["input"])))
+    got = apply_map(t, h["map"][0], h["map"][1])
+    if got[0] != "ok":
+        return []
+    m = got[1]
+    s_t, s_m = snap_samp(t), snap_samp(m)
+    extra = State([7] * 3)
+    try:
+        if what in ("outputs", "mapped-outputs"):
+            wrote = write_list((t if what == "outputs" else m).outputs, how, i, extra)
+        elif what in ("ctor-dict", "mapped-dict"):
+            dd = d if what == "ctor-dict" else m
+            if how in ("append", "assign"):
+                dict.__setitem__(dd, extra if how == "append" else next(iter(dd), extra), 12345)
+            elif how == "clear":
+                dict.clear(dd)
+            elif dd:
+                dict.pop(dd, list(dd)[i % len(dd)])
+            wrote = True
+        else:
+            views = [list(t), list(t.items()), list(t.values()), dict(t), t.copy(), list(t.keys())]
+            for v in views:
+                (v.clear() if how == "clear" else v.update({extra: 1}) if isinstance(v, dict) else v.append(extra))
+            wrote = True
+    except Exception as e:  # noqa: BLE001
+        ctx.count(f"samp:handout:{what}:write-refused:{type(e).__name__}")
+        return []
+    ctx.count(f"samp:handout:{what}:{how}" + ("" if wrote else ":nothing-to-write"))
+    if not wrote:
+        return []
+
+    def coherent(r) -> bool:
+        return [o.s for o in r.outputs] == [k.s for k in dict.keys(r)]
+
+    if what == "outputs":
+        bad = ([] if coherent(t) and snap_samp(t) == s_t else ["leaves s.outputs different from the states that have counts"]) + \
+              ([] if snap_samp(m) == s_m else ["changes a mapped result made earlier"])
+        return alias_note(ctx, "sampling", "s.outputs", how, " and ".join(bad)) if bad else []
+    if what.startswith("mapped"):
+        return [] if snap_samp(t) == s_t else [f"oracle: writing ({how}) into {what} changes the SamplingResult it was mapped from"]
+    if snap_samp(t) != s_t or snap_samp(m) != s_m:
+        return [f"oracle: writing ({how}) into {'the dictionary given to the constructor' if what == 'ctor-dict' else 'lists / views made from the result'} "
+                "changes the SamplingResult"]
+    return []
+
+
 def run_samp(ctx: Ctx, case: dict) -> list[str]:
     probs: list[str] = []
     ct = case.get("ctype", "int")
@@ -706,12 +1212,40 @@ def run_samp(ctx: Ctx, case: dict) -> list[str]:
     res = built[1] if built[0] == "ok" else None
     mq, impl_answers = [], []
 
-    def one_mapping(cur, kind, inv, w):
+    live: list = []
+
+    def frame(w) -> None:
+        for label, o, sn in live:
+            if snap_samp(o) != sn:
+                probs.append(f"oracle: {w}: {label} is no longer what it was (counts / outputs / input changed)")
+                live[:] = [(l_, o_, snap_samp(o_)) for l_, o_, _ in live]
+                break
+
+    def keep(label, o) -> None:
+        if len(live) < 10:
+            live.append((label, o, snap_samp(o)))
+
+    def one_use(cur, u, w, is_source: bool) -> None:
+        before = snap_samp(cur)
+        do_use(ctx, cur, u, "samp")
+        if snap_samp(cur) != before:
+            probs.append(f"oracle: {w}: the SamplingResult it was called on is no longer what it was")
+        frame(w)
+        if [o.s for o in cur.outputs] != [k.s for k in dict.keys(cur)] or \
+                any(ires(lambda: cur[k]) != ("ok", v) for k, v in list(dict.items(cur))):
+            probs.append(f"oracle: {w}: outputs / subscripts of the SamplingResult no longer agree with its contents")
+        ctx.count("samp:use:on-" + ("constructed" if is_source else "mapped") + "-result")
+
+    def one_mapping(cur, kind, inv, w, form="kw"):
         """-> mapped result or None; the clauses of the property on this single call"""
         before = snap_samp(cur)
-        nxt = ires(lambda: cur.apply_threshold_mapping(invert=inv) if kind == "threshold" else cur.apply_parity_mapping(invert=inv))
+        ctx.count(f"samp:call-form:{form}")
+        nxt = apply_map(cur, kind, inv, form)
         if snap_samp(cur) != before:
             probs.append(f"oracle: {w}: the SamplingResult the mapping was applied to has changed")
+        frame(w)
+        if nxt[0] == "ok":
+            keep(f"the result of an earlier mapping ({kind}, invert={inv})", nxt[1])
         if nxt[0] == "err":
             probs.append(f"oracle: mapping of a SamplingResult raised {nxt[1]}")
             return nxt
@@ -722,7 +1256,7 @@ def run_samp(ctx: Ctx, case: dict) -> list[str]:
             want[g] = want.get(g, 0) + v
         gotd = [(tuple(o.s), v) for o, v in dict.items(new)]
         if gotd != list(want.items()):
-            probs.append(f"oracle: {kind} mapping (invert={inv}) of counts {[(o.s, v) for o, v in dict.items(cur)]} gives "
+            probs.append(f"oracle: {w}: {kind} mapping (invert={inv}) of counts {[(o.s, v) for o, v in dict.items(cur)]} gives "
                          f"{gotd}, images with added counts are {list(want.items())}")
         if sum(dict.values(new)) != sum(dict.values(cur)):
             probs.append("oracle: total count changed under a mapping")
@@ -747,18 +1281,23 @@ def run_samp(ctx: Ctx, case: dict) -> list[str]:
                 probs.append(f"oracle: SamplingResult[{k}] = {got}, built from {v!r}")
                 break
         snap0 = snap_samp(res)
+        keep("the constructed SamplingResult", res)
         for q in case["q"]:
-            if q[0] == "get":
+            if q[0] == "use":
+                one_use(res, q[1], f"{use_name(q[1])} as an intermediate step", True)
+            elif q[0] == "get":
                 item = State(list(q[1])) if q[1] is not None else 5
                 got = ires(lambda: res[item])
                 impl_answers.append(got)
                 mq.append(q)
                 ctx.count("samp:get:" + got[0])
+                frame(f"subscript {q[1]}")
             elif q[0] == "fan":
                 seen: dict = {}
-                for n_, (kind, inv) in enumerate(q[1]):
+                for n_, e in enumerate(q[1]):
+                    kind, inv, form = entry(e)
                     ctx.count(f"samp:fan:{kind}:{'inverted' if inv else 'plain'}")
-                    nxt = one_mapping(res, kind, inv, f"mapping #{n_} ({kind}, invert={inv}) on the same object")
+                    nxt = one_mapping(res, kind, inv, f"mapping #{n_} ({kind}, invert={inv}, call form {form}) on the same object", form)
                     if nxt[0] == "ok":
                         sn = snap_samp(nxt[1])
                         if (kind, inv) in seen:
@@ -773,17 +1312,24 @@ def run_samp(ctx: Ctx, case: dict) -> list[str]:
             else:
                 cur = res
                 outcome = ("ok", None)
-                for k_, (kind, inv) in enumerate(q[1]):
+                for k_, e in enumerate(q[1]):
+                    if e[0] == "use":
+                        one_use(cur, e[1], f"{use_name(e[1])} between the mappings of a chain (step #{k_})", cur is res)
+                        continue
+                    kind, inv, form = entry(e)
                     ctx.count(f"samp:map:{kind}:{'inverted' if inv else 'plain'}")
-                    nxt = one_mapping(cur, kind, inv, f"mapping #{k_} ({kind}, invert={inv})")
+                    nxt = one_mapping(cur, kind, inv, f"mapping #{k_} ({kind}, invert={inv}, call form {form})", form)
                     if nxt[0] == "err":
                         outcome = nxt
                         break
                     cur = nxt[1]
-                impl_answers.append((outcome[0], cur) if outcome[0] == "ok" else outcome)
-                mq.append(q)
+                if maps_of(q[1]):
+                    impl_answers.append((outcome[0], cur) if outcome[0] == "ok" else outcome)
+                    mq.append(["map", maps_of(q[1])])
         if snap_samp(res) != snap0:
             probs.append("oracle: the constructed SamplingResult changed while it was queried and mapped")
+        if case.get("handout"):
+            probs += handout_samp(ctx, case)
     model = ctx.model.call({"op": "res", "kind": "samp", "results": [[s, val_str(v)] for s, v in case["results"]],
                             "input": case["input"], "q": mq})
     mnew = mclass(model["new"], "new")
@@ -858,6 +1404,12 @@ def shrink(ctx: Ctx, case: dict) -> dict:
             cur = with_rows(rs)
     if cur["kind"] == "samp" and len(cur["results"]) > 1:
         cur = {**cur, "results": ddmin(cur["results"], lambda sub: fails({**cur, "results": sub}))}
+    if "handout" in cur:
+        without = {k: v for k, v in cur.items() if k != "handout"}
+        if fails(without):
+            cur = without
+        elif cur["q"] and fails({**cur, "q": []}):
+            cur = {**cur, "q": []}
     return cur if fails(cur) else case
 
 
@@ -912,9 +1464,14 @@ def run(ctx: Ctx) -> None:
                 "or complex dyadic values handed over as ndarrays of every numeric dtype / bool / object or as nested lists, "
                 "independently of the result type) and SamplingResults (0-8 outputs, counts as Python / numpy ints, floats, "
                 "Fractions, bools) with 2-6 queries each: subscripts of every form, chains of 1-3 threshold/parity mappings (each "
-                "applied to the previous mapped result) and fans of 2-8 mappings applied to the same object, plain or inverted; a "
-                "directed corpus (every storage form x both result types x all four mappings) runs first; non-trivial = a result "
-                "with >=2 outputs that is mapped, or >=2x2; distinct = distinct case")
+                "applied to the previous mapped result) and fans of 2-8 mappings applied to the same object, plain or inverted, "
+                "`invert` given by keyword / positionally / by default as bool, int or numpy bool; every public method that is not "
+                "a mapping (display_as_dataframe with default and user thresholds and both conv_to_probability settings, "
+                "print_outputs, plot, str / repr, iteration, accessors, dictionary access) as an intermediate step, after which "
+                "every live object must be bit-identical (values around the display thresholds: 2^-40..2^-60 of either sign, "
+                "zeros, < 0.05); returned objects are written to in place; a directed corpus (every storage form x both result "
+                "types x all four mappings; every call form; every display call on threshold-sized values; every hand-out) runs "
+                "first; non-trivial = a result with >=2 outputs that is mapped, or >=2x2; distinct = distinct case")
     first = selftest(ctx)
     SIZE["big"] = ctx.thorough
     complex_probability_note(ctx)
@@ -952,10 +1509,10 @@ def clause_of(problem: str) -> str:
 
 
 def report(ctx: Ctx, case: dict, probs: list[str]) -> None:
-    oracle = [p for p in probs if p.startswith("oracle")]
+    oracle = sorted([p for p in probs if p.startswith("oracle")], key=lambda p: p.startswith("oracle: handout-aliasing"))
     rep = {"case": case, "problems": probs}
     if oracle:
-        sig = {"kind": case["kind"], "defect": clause_of(oracle[0])}
+        sig = {"kind": case["kind"], "defect": "handout-aliasing" if oracle[0].startswith("oracle: handout-aliasing") else clause_of(oracle[0])}
         key = json.dumps(sig, sort_keys=True)
         seen = ctx.extra.setdefault("violations_by_signature", {})
         seen[key] = seen.get(key, 0) + 1
